@@ -380,7 +380,9 @@ Section Universe.
   | ODelete (k : nat)
   | OGC
   | OSave
-  | OReopen.       (* close and oci.New on the same directory *)
+  | OReopen        (* close and oci.New on the same directory *)
+  | OInject (k : nat).  (* not a store operation: node k's bytes are written as a blob file
+                           behind the store's back ("garbage whose metadata is not stored") *)
 
   Definition step (cfg : config) (s : store) (oo : op * orders) : store * result :=
     let o := snd oo in
@@ -392,6 +394,7 @@ Section Universe.
     | OGC => st_gc cfg o s
     | OSave => (do_save o s, ROk)
     | OReopen => (reopen s, ROk)
+    | OInject k => (if mem k (blobs s) then s else mkStore (k :: blobs s) (res s) (gr s) (disk s), ROk)
     end.
 
   Definition run (cfg : config) (h : list (op * orders)) (s : store) : store :=
@@ -401,6 +404,10 @@ Section Universe.
   Definition obs_tags (T : nat) (s : store) : list nat :=
     filter (fun t => match lookup (RTag t) (r_index (res s)) with
                      | Some d => negb (is_digest_ref (RTag t) d) | None => false end) (seq 0 T).
+  (* Tags(last, fn): the tags after [last]; [f] is the pool index of the first name that is
+     greater than last (listTags skips tag <= last) *)
+  Definition obs_tags_from (T f : nat) (s : store) : list nat :=
+    filter (fun t => Nat.leb f t) (obs_tags T s).
   (* Resolve of a tag name *)
   Definition obs_resolve_tag (s : store) (t : nat) : option desc := lookup (RTag t) (r_index (res s)).
   (* Resolve of the digest string of node k *)
@@ -418,10 +425,19 @@ Section Universe.
   (* index.json validity: every entry points to an existing blob *)
   Definition disk_valid (s : store) : bool := forallb (fun e => mem (d_node e) (blobs s)) (disk s).
 
+  (* ---------- files under blobs/ that are no content of the store (GC's sweep) ---------- *)
+  Inductive stray := SValidName      (* blobs/<known alg>/<valid encoded digest>: removed by GC *)
+                   | SInvalidName    (* blobs/<known alg>/<not an encoded digest>: skipped *)
+                   | SUnknownAlg     (* blobs/<unknown algorithm>/<anything>: directory skipped *)
+                   | SBlobsFile.     (* a plain file directly under blobs/: skipped *)
+  Definition gc_sweeps_stray (k : stray) : bool := match k with SValidName => true | _ => false end.
+
   (* ---------- vocabulary of the C08 statements (definitions only) ---------- *)
   (* a tag name is never the digest string of another node *)
   Definition wf_tag (d : desc) (r : ref) : Prop := match r with RDig k => k = d_node d | RTag _ => True end.
-  Definition wf_op (o : op) : Prop := match o with OTag d r => wf_tag d r | _ => True end.
+  (* only non-manifest content is ever put into blobs/ behind the store's back *)
+  Definition wf_op (o : op) : Prop :=
+    match o with OTag d r => wf_tag d r | OInject k => mf k = false | _ => True end.
   Definition wf_history (h : list (op * orders)) : Prop := Forall (fun oo => wf_op (fst oo)) h.
   Definition no_reopen (h : list (op * orders)) : Prop := Forall (fun oo => fst oo <> OReopen) h.
 
@@ -443,6 +459,7 @@ Section Universe.
      (for every tag name below T and every node, also outside the universe bound) *)
   Record obs_equiv (T : nat) (a b : store) : Prop := {
     oe_tags : obs_tags T a = obs_tags T b;
+    oe_tags_from : forall f, obs_tags_from T f a = obs_tags_from T f b;
     oe_rtag : forall t, match obs_resolve_tag a t, obs_resolve_tag b t with
                         | Some x, Some y => desc_eqb_mod x y = true
                         | None, None => True
